@@ -626,6 +626,11 @@ func mentionsFieldAny(info *types.Info, e ast.Expr, typ, field string) bool {
 // valueKindCoverage: each listed function of package ast switches over ast.ValueKind covering all
 // constants (ValueKindUnknown excepted) or has a default arm that returns an error / panics.
 func valueKindCoverage(r *fw.Run, rule string, funcs []string) {
+	valueKindCoverageIn(r, rule, "ast", funcs)
+}
+
+// valueKindCoverageIn: like valueKindCoverage for functions of another package that dispatch over ast.ValueKind.
+func valueKindCoverageIn(r *fw.Run, rule, inPkg string, funcs []string) {
 	p := r.Prog
 	pk := p.Pkg("ast")
 	if pk == nil {
@@ -647,20 +652,20 @@ func valueKindCoverage(r *fw.Run, rule string, funcs []string) {
 		r.Error("%s: expected at least 9 value kinds, found %d", rule, len(want))
 	}
 	for _, name := range funcs {
-		fi := p.Func("ast", name)
+		fi := p.Func(inPkg, name)
 		if fi == nil {
-			r.Error("%s: ast.%s not found", rule, name)
+			r.Error("%s: %s.%s not found", rule, inPkg, name)
 			continue
 		}
 		sws := fw.ConstSwitches(fi, vk)
 		if len(sws) == 0 {
-			r.Error("%s: no switch over ValueKind in ast.%s", rule, name)
+			r.Error("%s: no switch over ValueKind in %s.%s", rule, inPkg, name)
 			continue
 		}
 		for i, sw := range sws {
 			miss := fw.MissingFrom(sw.Covered, want)
 			loud := sw.HasDefault && defaultFailsLoudly(fi, sw.Default)
-			r.Check(len(miss) == 0 || loud, rule, name+"/value-kinds#"+itoa(i+1), p.Pos(sw.Stmt.Pos()), "the ValueKind dispatch in ast."+name+" covers all value kinds (or its default arm fails loudly)",
+			r.Check(len(miss) == 0 || loud, rule, name+"/value-kinds#"+itoa(i+1), p.Pos(sw.Stmt.Pos()), "the ValueKind dispatch in "+inPkg+"."+name+" covers all value kinds (or its default arm fails loudly)",
 				"value kinds without an arm and without a failing default: "+strings.Join(miss, ", ")+" — a value of that kind is silently printed as nothing / copied as garbage / compared as equal, so a parsed document does not round-trip")
 		}
 	}
